@@ -55,7 +55,11 @@ E0 == [act |-> "none", b |-> NONE, pid |-> NONE, pw |-> 0, tok |-> 0, rm |-> FAL
        prov |-> NONE, outcome |-> NONE, phone |-> 0, redir |-> NONE, k |-> NONE]
 
 R0 == [class |-> "none", loc |-> NONE, ran |-> FALSE, seenUser |-> NONE, seenKeys |-> {},
-       mails |-> {}, sms |-> {}, shown |-> {}]
+       mails |-> {}, sms |-> {}, shown |-> {}, leaks |-> {}]
+
+\* declared secondary e-mail addresses (recovery mail also goes there); the
+\* harness seeds u2 with one
+Secondary(u) == IF u = "u2" THEN {"u2s"} ELSE {}
 
 -----------------------------------------------------------------------------
 (* Configuration helpers *)
@@ -122,7 +126,7 @@ ConfirmPrevent(h, u) ==
 StartConfirmation(h, u) ==
   LET t == Fresh(h, "ct") IN
   [Bump(h, "ct") EXCEPT !.db[u].conf = FALSE, !.db[u].cTok = t,
-                        !.mails = @ \cup {[to |-> u, kind |-> "confirm", tok |-> t]}]
+                        !.mails = @ \cup {[to |-> {u}, kind |-> "confirm", tok |-> t]}]
 
 (* remember module *)
 RememberAdd(h, u) ==
@@ -259,7 +263,7 @@ RecoverStart(h, c, e) ==
   ELSE LET u == e.pid
            t == Fresh(h, "rt")
            h1 == [Bump(h, "rt") EXCEPT !.db[u].rTok = t, !.db[u].rExp = h.now + c.recoverTTL,
-                                       !.mails = @ \cup {[to |-> u, kind |-> "recover", tok |-> t]}]
+                                       !.mails = @ \cup {[to |-> {u} \cup Secondary(u), kind |-> "recover", tok |-> t]}]
        IN  Redirect(h1, "recoverOK")
 
 RecoverEnd(h, c, e) ==
@@ -502,7 +506,7 @@ EmailVerifyStart(h, c, e) ==
        IF ~m.ok THEN Refuse(h, c)
        ELSE LET t == Fresh(h, "tt")
                 h1 == PutS(Bump(h, "tt"), "tfaTok", t)
-            IN  Redirect([h1 EXCEPT !.mails = @ \cup {[to |-> m.uid, kind |-> "tfaverify", tok |-> t]}], "tfaEmailNotOK")
+            IN  Redirect([h1 EXCEPT !.mails = @ \cup {[to |-> {m.uid}, kind |-> "tfaverify", tok |-> t]}], "tfaEmailNotOK")
 
 EmailVerifyEnd(h, c, e) ==
   IF ~c.emailAuth \/ ~Has(c, e.kind) \/ e.kind \notin {"totp", "sms"} THEN RouteMissing(h)
@@ -571,7 +575,7 @@ Request(S, c, e) ==
                         !.cookie[e.b] = IF flush THEN hf.pc ELSE @],
        resp |-> [class |-> hf.class, loc |-> hf.loc, ran |-> hf.ran,
                  seenUser |-> hf.seenUser, seenKeys |-> hf.seenKeys,
-                 mails |-> hf.mails, sms |-> hf.sms, shown |-> hf.shown]]
+                 mails |-> hf.mails, sms |-> hf.sms, shown |-> hf.shown, leaks |-> {}]]
 
 -----------------------------------------------------------------------------
 (* Environment events *)
@@ -594,7 +598,7 @@ Env(S, c, e) ==
       [] e.act = "AppKey" -> [S EXCEPT !.sess[e.b][e.k] = TRUE]
   IN [st |-> S1,
       resp |-> [R0 EXCEPT !.mails = IF e.act = "RestartConfirm" /\ S.db[e.pid].ex
-                                    THEN {[to |-> e.pid, kind |-> "confirm", tok |-> S1.iss["ct"]]}
+                                    THEN {[to |-> {e.pid}, kind |-> "confirm", tok |-> S1.iss["ct"]]}
                                     ELSE {}]]
 
 EnvActs == {"Tick", "AdminLock", "AdminUnlock", "RestartConfirm", "UpdatePassword",
